@@ -22,6 +22,7 @@ KDIR = os.path.join(VERIF, "contracts", "kani")
 
 FEATURES = {
     "std": [],
+    "ext": [],
     "nostd": ["--no-default-features", "--features", "spin-lock,critical-section"],
     "nomutex": ["--no-default-features", "--features", "critical-section"],
 }
@@ -38,6 +39,11 @@ class Harness:
         self.fn = attrs.get("fn", "")
         self.bound = attrs.get("bound", "")
         self.timeout = int(attrs.get("timeout", "600"))
+        self.ext = file.ext
+        if file.ext:
+            self.full = "%s::%s" % (file.base, name)
+            self.oid = "K:%s:verif_ext::%s" % (self.feat, self.full)
+            return
         modpath = module_file[len("src/"):-len(".rs")].replace("/", "::")
         if modpath == "lib":
             self.full = "%s::%s" % (modname, name)
@@ -58,6 +64,7 @@ class KFile:
         self.appends = []  # (file, [lines])
         self.harnesses = []
         self.needs = []
+        self.ext = any(l.startswith("//@extcrate") for l in open(path))
         self._parse()
 
     def _parse(self):
@@ -97,7 +104,7 @@ class KFile:
                 name = mm.group(1) or mm.group(2)
                 self.harnesses.append(Harness(self, name, attrs, self.module, self.modname))
             i += 1
-        if self.module is None:
+        if self.module is None and not self.ext:
             raise Undecided("no //@module in %s" % self.path)
 
 
@@ -135,6 +142,26 @@ def prepare(scratch, kfiles):
                 nk = KFile(os.path.join(KDIR, nd + ".rs"))
                 kfiles = kfiles + [nk]
                 todo.append(nk)
+    ext_files = [kf for kf in kfiles if kf.ext]
+    for kf in kfiles:
+        for (file, body) in (kf.appends if kf.ext else []):
+            with open(os.path.join(scratch, file), "a") as f:
+                f.write("\n" + "\n".join(body) + "\n")
+            applied.append("cfg(kani) hook appended to %s" % file)
+    kfiles = [kf for kf in kfiles if not kf.ext]
+    if ext_files:
+        ext = os.path.join(scratch, "verif_ext")
+        os.makedirs(os.path.join(ext, "src"))
+        with open(os.path.join(ext, "Cargo.toml"), "w") as f:
+            f.write('[package]\nname = "verif_ext"\nversion = "0.0.0"\nedition = "2021"\n\n[dependencies]\nunimock = { path = ".." }\n\n[workspace]\n')
+        mods = []
+        for kf in ext_files:
+            shutil.copy(kf.path, os.path.join(ext, "src", kf.base + ".rs"))
+            mods.append("#[cfg(kani)]\nmod %s;\n" % kf.base)
+        with open(os.path.join(ext, "src", "lib.rs"), "w") as f:
+            f.write("// external harness crate: uses the real unimock_macros through the scratch copy of unimock\nextern crate alloc;\n" + "".join(mods))
+        shutil.copy(os.path.join(scratch, "Cargo.lock"), os.path.join(ext, "Cargo.lock"))
+        applied.append("external harness crate verif_ext created (depends on the scratch copy by path)")
     for kf in kfiles:
         dst = os.path.join(scratch, os.path.dirname(kf.module), kf.modname + ".rs")
         shutil.copy(kf.path, dst)
@@ -171,6 +198,8 @@ def prepare(scratch, kfiles):
 
 def run_harnesses(scratch, feat, harnesses, jobs=8):
     """Run the given harnesses (one feature set) and return {oid: result dict}."""
+    if feat == "ext":
+        scratch = os.path.join(scratch, "verif_ext")
     resfile = os.path.join(scratch, "kani-result-%s.json" % feat)
     if os.path.exists(resfile):
         os.remove(resfile)
@@ -251,6 +280,8 @@ def playback(scratch, feat, h):
     """Turn the counterexample of a failed harness into a native unit test and run it
     against the real code (in the scratch copy of the working tree).
     Returns (reproduced: bool, text)."""
+    if h.ext:
+        scratch = os.path.join(scratch, "verif_ext")
     base = ["-Z", "function-contracts", "-Z", "stubbing", "-Z", "unstable-options", "-Z", "concrete-playback"]
     cmd = ["cargo", "kani"] + base + ["--concrete-playback=print", "--exact", "--harness", h.full,
                                       "--harness-timeout", "%ds" % h.timeout, "--output-format", "terse"] + FEATURES[h.feat]
@@ -266,7 +297,10 @@ def playback(scratch, feat, h):
             tests.append((m.group(1), b))
     if not tests:
         return False, "concrete playback produced no test case for a failed check\n" + "\n".join(out.split("\n")[-30:])
-    hfile = os.path.join(scratch, os.path.dirname(h.file.module), h.file.modname + ".rs")
+    if h.ext:
+        hfile = os.path.join(scratch, "src", h.file.base + ".rs")
+    else:
+        hfile = os.path.join(scratch, os.path.dirname(h.file.module), h.file.modname + ".rs")
     seen = set()
     with open(hfile, "a") as f:
         for (name, b) in tests:
